@@ -12,6 +12,7 @@ import DocsModel.Model.Replica
 import DocsModel.Model.Events
 import DocsModel.Model.Actor
 import DocsModel.Model.Codec
+import DocsModel.Model.Session
 /-!
 Line-protocol driver: one output line per input line. The Rust harness pipes the same operation
 lines it applied to the real crate and compares the two output streams.
@@ -296,6 +297,39 @@ def parseFrame? (s : String) : Option Frame :=
 
 end WireTok
 
+namespace SessTok
+open Session
+
+def parseItem? (s : String) : Option Item :=
+  match s.splitOn "@" with
+  | ["garbage"] => some .garbage
+  | ["init", ns, m] => do pure (.frame (.init (← Bytes.ofHex ns) (← parseMessage? m)))
+  | ["sync", m] => do pure (.frame (.sync (← parseMessage? m)))
+  | ["abort", r] => do pure (.frame (.abort (← parseNat? r)))
+  | _ => none
+
+def showFrame : Frame → String
+  | .init ns m => "init@" ++ ns.toHex ++ "@" ++ showMessage m
+  | .sync m => "sync@" ++ showMessage m
+  | .abort r => "abort@" ++ toString r
+
+def showWritten (l : List Frame) : String :=
+  toString l.length ++ ":" ++ (if l.isEmpty then "-" else "#".intercalate (l.map showFrame))
+
+def showOutcome (o : Replica.Outcome) : String :=
+  toString o.numRecv ++ "/" ++ toString o.numSent
+
+def parseAccept? (s : String) : Option Accept :=
+  if s = "allow" then some .allow
+  else match s.splitOn ":" with
+    | ["reject", r] => (parseNat? r).map .reject
+    | _ => none
+
+def parseEnd? (s : String) : Option StreamEnd :=
+  if s = "eof" then some .eof else if s = "trunc" then some .truncated else none
+
+end SessTok
+
 def showInsertResult : Tables.InsertResult → String
   | .inserted n => "inserted " ++ toString n
   | .notInserted => "notinserted"
@@ -520,6 +554,40 @@ def step (w : World) (line : String) : World × String :=
       | none => (w, "no-store")
     | _, _, _, _, _, _ => (w, "bad-op")
   -- snapshots and the join specification of a session
+  -- ---- the two ends of a session (Session.lean) over the table model ----
+  | "bobrun" :: sid :: ns :: now :: accept :: failFrom :: e :: items =>
+    match parseNat? sid, Bytes.ofHex ns, parseNat? now, SessTok.parseAccept? accept,
+          (if failFrom = "-" then some none else (parseNat? failFrom).map some), SessTok.parseEnd? e,
+          items.mapM SessTok.parseItem? with
+    | some sid, some ns, some now, some accept, some failFrom, some e, some items =>
+      match w.getT sid with
+      | some t =>
+        let out := Session.bobRun (Session.tableActor ns now failFrom) (fun _ => accept) items e { t := t }
+        let res := match out.result with
+          | .ok n => "ok " ++ n.toHex
+          | .aborted n r => "aborted " ++ n.toHex ++ " " ++ toString r
+          | .failed => "failed"
+        (w.setT sid out.store.t,
+          "result=" ++ res ++ " written=" ++ SessTok.showWritten out.written ++ " outcome=" ++
+          (match out.progress with | some o => SessTok.showOutcome o | none => "unavailable"))
+      | none => (w, "no-store")
+    | _, _, _, _, _, _, _ => (w, "bad-op")
+  | "alicerun" :: sid :: ns :: now :: failFrom :: e :: items =>
+    match parseNat? sid, Bytes.ofHex ns, parseNat? now,
+          (if failFrom = "-" then some none else (parseNat? failFrom).map some), SessTok.parseEnd? e,
+          items.mapM SessTok.parseItem? with
+    | some sid, some ns, some now, some failFrom, some e, some items =>
+      match w.getT sid with
+      | some t =>
+        let out := Session.aliceRun (Session.tableActor ns now failFrom) ns items e { t := t }
+        let res := match out.result with
+          | .ok o => "ok " ++ SessTok.showOutcome o
+          | .remoteAbort r => "remote-abort " ++ toString r
+          | .failed => "failed"
+        (w.setT sid out.store.t,
+          "result=" ++ res ++ " written=" ++ SessTok.showWritten out.written)
+      | none => (w, "no-store")
+    | _, _, _, _, _, _ => (w, "bad-op")
   -- ---- wire encodings (Codec.lean) ----
   | ["cencode", tok] =>
     match WireTok.parseFrame? tok with
